@@ -252,8 +252,8 @@ def pointwise_band_ci(
     fpr_ci = joint_ci[1]
 
     # Rule-of-three correction for FNR and FPR being 0. or 1.
-    fnr_ci = _apply_rule_of_three(p=fnr, ci=fnr_ci, alpha=alpha, n=len(scores.pos))
-    fpr_ci = _apply_rule_of_three(p=fpr, ci=fpr_ci, alpha=alpha, n=len(scores.neg))
+    fnr_ci = _apply_rule_of_three(p=fnr, ci=fnr_ci, alpha=alpha, n=scores.nb_all_pos)
+    fpr_ci = _apply_rule_of_three(p=fpr, ci=fpr_ci, alpha=alpha, n=scores.nb_all_neg)
 
     return ROCCurve(
         fnr=fnr, fpr=fpr, thresholds=thresholds, fnr_ci=fnr_ci, fpr_ci=fpr_ci
